@@ -171,6 +171,38 @@ func checkC10(c c10Case) (ci caseInfo, err error) {
 				renamed = true
 			}
 		}
+		// the same template as the item of a message: filling the message is filling its item, also when one map
+		// carries the repeat counts together with values for names that only the expansion generates
+		{
+			oneCall := map[string]interface{}{}
+			for k, v := range libFill {
+				oneCall[k] = v
+			}
+			extra := 0
+			for _, a := range singleFills(next) {
+				if !before[a.Name] && extra < 2 && c.Variant%3 != 0 {
+					oneCall[a.Name] = a.goValue(c.Variant)
+					extra++
+				}
+			}
+			msg := ast.NewDataMessage("c10", 1, 1, 0, "H->E", lib)
+			var viaItem ast.ItemNode
+			var viaMsg *ast.DataMessage
+			pi, _ := try(func() { viaItem = lib.FillVariables(oneCall) })
+			pm, pmsg := try(func() { viaMsg = msg.FillVariables(oneCall) })
+			switch {
+			case pi != pm:
+				return ci, fmt.Errorf("round %d: FillVariables(%v) on the item panics=%v, on a message holding the item panics=%v (%s)", r+1, oneCall, pi, pm, pmsg)
+			case !pi:
+				if got, want := itemPart(strings.TrimSuffix(viaMsg.String(), "\n.")), itemString(viaItem); got != want || !sameStrings(viaMsg.Variables(), viaItem.Variables()) {
+					return ci, fmt.Errorf("round %d: FillVariables(%v) through a message differs from filling the item itself:\nmessage: %s %q\nitem:    %s %q", r+1, oneCall,
+						clipStr(got, 400), viaMsg.Variables(), clipStr(want, 400), viaItem.Variables())
+				}
+				if extra > 0 {
+					ci.label("one-call:counts+generated-names-through-message")
+				}
+			}
+		}
 		lib, ref = res, next
 	}
 	ci.Nontrivial = filledPositive && renamed
